@@ -493,3 +493,59 @@ where
     input.extend(filler(filler_kind, mix(salt, 0xFFFF)));
     mk_cfg(input, steps)
 }
+
+// ---------------------------------------------------------------- oracle self-test streams
+
+/// A structure-UNAWARE random opcode stream with well-formed arguments, used only to
+/// test the oracles themselves (O1/O2 against CPython): most of these are rejected by
+/// `dis`, in every way a stack/memo discipline can be broken, including MARKs consumed
+/// as ordinary operands. Independent of the generator under test.
+pub fn random_stream(rng: &mut Rng) -> Vec<u8> {
+    use crate::optable::OPTABLE;
+    let n = 1 + rng.below(24) as usize;
+    let mut out = Vec::new();
+    let hot: [&str; 24] = [
+        "MARK", "POP", "POP_MARK", "DUP", "TUPLE", "LIST", "DICT", "APPENDS", "SETITEMS", "ADDITEMS", "APPEND", "SETITEM",
+        "MEMOIZE", "BINPUT", "BINGET", "NONE", "EMPTY_LIST", "EMPTY_DICT", "TUPLE1", "TUPLE2", "BUILD", "REDUCE", "OBJ", "BINPERSID",
+    ];
+    for _ in 0..n {
+        let row = if rng.below(3) == 0 {
+            &OPTABLE[rng.below(OPTABLE.len() as u64) as usize]
+        } else {
+            crate::lexer::row_by_name(hot[rng.below(hot.len() as u64) as usize])
+        };
+        if row.name == "STOP" {
+            continue;
+        }
+        out.push(row.code);
+        let small = rng.below(4);
+        match row.arg {
+            "" => {}
+            "uint1" => out.push(small as u8),
+            "uint2" => out.extend_from_slice(&(small as u16).to_le_bytes()),
+            "int4" | "uint4" => out.extend_from_slice(&(small as u32).to_le_bytes()),
+            "uint8" => out.extend_from_slice(&small.to_le_bytes()),
+            "float8" => out.extend_from_slice(&1.5f64.to_be_bytes()),
+            "decimalnl_short" | "decimalnl_long" => out.extend_from_slice(format!("{}\n", small).as_bytes()),
+            "floatnl" => out.extend_from_slice(b"2.5\n"),
+            "stringnl" => out.extend_from_slice(b"'ab'\n"),
+            "stringnl_noescape" | "unicodestringnl" => out.extend_from_slice(b"ab\n"),
+            "stringnl_noescape_pair" => out.extend_from_slice(b"os\nsep\n"),
+            "long1" | "string1" | "bytes1" | "unicodestring1" => {
+                out.push(2);
+                out.extend_from_slice(b"hi");
+            }
+            "long4" | "string4" | "bytes4" | "unicodestring4" => {
+                out.extend_from_slice(&2u32.to_le_bytes());
+                out.extend_from_slice(b"hi");
+            }
+            "bytes8" | "bytearray8" | "unicodestring8" => {
+                out.extend_from_slice(&2u64.to_le_bytes());
+                out.extend_from_slice(b"hi");
+            }
+            other => panic!("random_stream: no argument writer for {}", other),
+        }
+    }
+    out.push(b'.');
+    out
+}
